@@ -573,6 +573,45 @@ func runC15(w *World, r *Report) {
 		}
 	}
 
+	// unlocking a mutex that is not locked is a fatal error of the runtime, not a panic: nothing recovers from it
+	r.rule("unlock-finds-the-lock-held", "in the request-serving packages every Unlock / RUnlock is executed with that mutex in the must-hold lockset — an explicit one where it stands, a deferred one at every return that is reachable from the defer statement (an early return between a manual Unlock and the re-Lock leaves through the deferred Unlock with the mutex free: fatal error: sync: Unlock of unlocked RWMutex)", 6)
+	{
+		liU := ComputeLocks(w, func(fn *ssa.Function) bool { return isRepoFunc(fn) })
+		for _, fn := range append(append([]*ssa.Function{}, fns...), w.RepoFuncs("cache", "webhooks")...) {
+			instrsOf(fn, func(in ssa.Instruction) {
+				c, ok := in.(ssa.CallInstruction)
+				if !ok {
+					return
+				}
+				op, mode, id, isLock := lockOp(c)
+				if !isLock || op != "unlock" {
+					return
+				}
+				if _, isGo := in.(*ssa.Go); isGo {
+					return
+				}
+				key := shortFn(fn) + "/" + mode + ":" + id
+				if _, deferred := in.(*ssa.Defer); deferred {
+					bad := ""
+					seenRet := map[*ssa.Return]bool{}
+					walkFrom(in, nil, nil, func(x ssa.Instruction) bool {
+						if ret, isRet := x.(*ssa.Return); isRet && !seenRet[ret] {
+							seenRet[ret] = true
+							if held := liU.At(ret); !held.Has(id, mode) {
+								bad += fmt.Sprintf(" the return at %s is reached with lockset %s;", lineOf(w, ret), held.String())
+							}
+						}
+						return false
+					})
+					r.check(bad == "", "unlock-finds-the-lock-held", key+"/deferred", lineOf(w, in), "the deferred unlock runs with the mutex held at every return", bad)
+					return
+				}
+				held := liU.At(in)
+				r.check(held.Has(id, mode), "unlock-finds-the-lock-held", key, lineOf(w, in), "the mutex is held where it is unlocked", "lockset "+held.String())
+			})
+		}
+	}
+
 	// shared tables are only touched under their lock (an unsynchronised map access aborts the process)
 	tablesUnderLock(w, r, "shared-table-under-lock")
 
